@@ -34,7 +34,10 @@ Api(a, n, q, h) == [A0 EXCEPT !.api = a, !.topic = n, !.tl = Levels(n), !.short 
 ApiId(a, id, q, h) == [A0 EXCEPT !.api = a, !.tid = id, !.qos = q, !.h = h, !.pl = IF a = "PublishPredefined" THEN "s:cp" ELSE "s:"]
 Plain(a) == [A0 EXCEPT !.api = a]
 
-Eff(st, n, q) == IF \E x \in st.subs : Matches(x.tl, Levels(n)) THEN q ELSE -1
+\* QoS a conforming broker uses towards this client: min(publisher's QoS, highest matching subscription QoS)
+Eff(st, n, q) == LET m == {x.qos : x \in {y \in st.subs : Matches(y.tl, Levels(n))}}
+                 IN IF m = {} THEN -1
+                    ELSE LET top == CHOOSE a \in m : \A b \in m : a >= b IN IF q < top THEN q ELSE top
 Pub(st, n, q, k) == [topic |-> n, tl |-> Levels(n), short |-> IsShort(n), qos |-> q, eff |-> Eff(st, n, q), mid |-> 0, pl |-> "s:b" \o ToString(k) \o "-" \o n]
 BPub(st, ps) == [A0 EXCEPT !.t = "BPub", !.pubs = ps, !.n = 80]
 
